@@ -39,8 +39,12 @@ pub trait LexicographicIterator {
     fn seek_upper_bound(&mut self, target: &str) -> std::result::Result<bool, Self::Error> {
         let exact_match = self.seek_lower_bound(target)?;
         if exact_match {
-            // Move to next string after exact match
-            self.next()?;
+            // Move past every string equal to the target (there may be duplicates)
+            while self.current() == Some(target) {
+                if !self.next()? {
+                    break;
+                }
+            }
         }
         Ok(false) // Never an exact match by definition
     }
@@ -94,15 +98,20 @@ impl<'a> SortedVecLexIterator<'a> {
         let mut left = 0;
         let mut right = self.strings.len();
 
+        // Lower bound: the FIRST index whose string is not less than the target, so that
+        // duplicates of the target are not skipped
         while left < right {
             let mid = left + (right - left) / 2;
             match compare(&self.strings[mid]) {
                 Ordering::Less => left = mid + 1,
-                Ordering::Greater => right = mid,
-                Ordering::Equal => return Ok(mid),
+                Ordering::Greater | Ordering::Equal => right = mid,
             }
         }
-        Err(left)
+        if left < self.strings.len() && compare(&self.strings[left]) == Ordering::Equal {
+            Ok(left)
+        } else {
+            Err(left)
+        }
     }
 }
 
